@@ -6,8 +6,8 @@
        models of the old code -- Int 1 / Float 1.0 never met in the grace hash join, `ON a1 = b1 AND
        a2 < b2` lost its second conjunct, LEFT JOIN .. WHERE kept NULL-padded rows that fail WHERE,
        0.0 / -0.0 keys never met in the hand-written hash path.)
-   (b) The one two-table class still open (3: bare names, equality between two columns of the same
-       input): the faithful model returns what the implementation returns, and it is not the SQL join.
+   (b) w3s: the last two-table class (3: bare names, equality between two columns of the same input,
+       repaired by 824c6c8) -- same statement.
    The observed rows are those of the run that recorded the witnesses; every check re-runs them. *)
 From Coq Require Import ZArith List Bool.
 From TV Require Import Corr.C17.
@@ -41,23 +41,21 @@ Definition w10 : case :=
   Sql (mkq [(3%nat, ta3); (3%nat, tb3)] [(JInner, Some (ECmp CLe (ECol 1) (ECol 4)))] (Some (ECmp CEq (ECol 3) (ELit (VInt 1)))) (Some [0%nat; 3%nat]))
       true true [ORows [[VInt 1; VInt 1]; [VInt 2; VInt 1]]].
 
-(* still open: LEFT JOIN tb ON a1 = b1 AND a1 = a2, bare names *)
+(* LEFT JOIN tb ON a1 = b1 AND a1 = a2, bare names (the same-side equality used to be dropped) *)
 Definition w3s : case :=
   Sql (mkq [(3%nat, [[VInt 1; VInt 1; VInt 1]; [VInt 2; VInt 1; VInt 2]; [VInt 3; VNull; VInt 3]]); (2%nat, [[VInt 1; VInt 1]; [VInt 2; VInt 2]])]
            [(JLeft, Some (EAnd (ECmp CEq (ECol 1) (ECol 4)) (ECmp CEq (ECol 1) (ECol 2))))] None (Some [0%nat; 3%nat]))
-      false true [ORows [[VInt 1; VInt 1]; [VInt 2; VInt 1]; [VInt 3; VNull]]].
+      false true [ORows [[VInt 1; VInt 1]; [VInt 2; VNull]; [VInt 3; VNull]]].
 
 Definition repaired (c : case) : bool := model_agrees c && spec_ok c && (known_class c =? 0).
-Definition refuted (c : case) (k : Z) : bool := model_agrees c && negb (spec_ok c) && (known_class c =? k).
 
 Lemma repaired_classes_regression_l :
-  repaired w1 = true /\ repaired w2 = true /\ repaired w3 = true /\ repaired w4 = true /\ repaired w8 = true /\ repaired w10 = true.
+  repaired w1 = true /\ repaired w2 = true /\ repaired w3 = true /\ repaired w4 = true /\ repaired w8 = true /\ repaired w10 = true /\ repaired w3s = true.
 Proof. vm_compute. repeat split. Qed.
 
-Lemma open_class_refuted_l :
-  refuted w3s 3 = true /\
-  (match w3s with Sql q _ _ _ => query_spec q | _ => None end) = Some [[VInt 1; VInt 1]; [VInt 2; VNull]; [VInt 3; VNull]].
-Proof. vm_compute. repeat split. Qed.
+(* no finding class is left for two-table joins *)
+Lemma two_table_classes_closed_l : forall t1 t2 j w sel qual, cls_sql (mkq [t1; t2] [j] w sel) qual = 0.
+Proof. intros. reflexivity. Qed.
 
 (* the hash hypothesis of grace_is_sql_join now holds on the former class-1 witness: the keys
    Int 1 and Float 1.0 match AND carry the same DefaultHasher value (hash_join_key) *)
